@@ -118,7 +118,11 @@ def _(self):
                     self._region_coverage[g, r] == (V / N) * region_sum(self, g, r) / (profile_value(self, g, r) / 2))
         and implies(profile_value(self, g, r) == 0, self._region_coverage[g, r] == 0))), label="normalised")
     ensures(forall(lambda g=int, r=str: implies((g, r) in self._region_coverage, is_region(self, g, r))), label="only-regions")
-    modifies(self._region_coverage)
+    # reading a missing position of the defaultdict(int) depth table inserts a zero entry: allowed,
+    # but no depth value may change
+    ensures(forall(lambda i=int: (self._cnv_coverage[i] if i in self._cnv_coverage else 0)
+                   == old(self._cnv_coverage[i] if i in self._cnv_coverage else 0)), label="neutral-depths-kept")
+    modifies(self._region_coverage, self._cnv_coverage)
 
 
 def keeps_list(f):
